@@ -1,9 +1,9 @@
 SPECIFICATION Spec
 CONSTANTS
-  Formats = {"amf0", "aac", "ocspreq"}
+  Formats = {"amf0", "aac", "rtmpchunk", "jweforge", "ocspreq"}
   SeedCap = 1
   MaxMut = 2
-  Ops1 = {"trunc", "set", "drop", "nest", "tlv", "random"}
+  Ops1 = {"trunc", "set", "drop", "nest", "tlv", "random", "restate", "forge"}
   Ops2 = {"trunc"}
   NestDepths = {1, 2}
   SpliceWindow = 2
@@ -13,6 +13,8 @@ CONSTANTS
   SpliceOther = TRUE
   RandLens = {0, 1, 7}
   NRand = 2
+  InnerNodeIdx = {0, 2}
+  ForgeAlgs = {"dir"}
   NodeIdx = {}
   ByteOpsAllSeeds = FALSE
   PanicOnForbidden = FALSE
